@@ -5,7 +5,11 @@
 (* writes - one per applied instruction, AFTER the id maps were updated:    *)
 (* operator list, graph outputs, _original_op_id_map, _added_op_id_map -    *)
 (* are validated against Pipeline.tla's ApplyQT / ApplyInsert actions.      *)
-(* Materialize, BufCheck, Gen, NextTensor, ApplySkip are silent steps       *)
+(* The instruction plan the generator hands to the performer (hook H4: per  *)
+(* tensor, in application order, the transformations with their producer    *)
+(* and consumers) is bound to Gen: the instructions the specification       *)
+(* generates for the k-th tensor must be the k-th entry of the plan.        *)
+(* Materialize, BufCheck, NextTensor, ApplySkip are silent steps            *)
 (* (bounded by the scenario: they are deterministic and finitely many).     *)
 (* A trace is accepted iff the behaviour reaches pc = "done" having         *)
 (* consumed every event, each event matching the specification's state      *)
@@ -14,6 +18,7 @@
 EXTENDS PipelineFrom
 
 Traces == JsonDeserialize(IOEnv.TRACE_FILE)    \* Traces[i] = sequence of events of scenario i
+Plans == JsonDeserialize(IOEnv.PLAN_FILE)      \* Plans[i] = the plan of scenario i: seq of [sub, insts: seq of <<name, tensor, producer, consumers>>]
 VARIABLES ti, l
 tvars == <<vars, ti, l>>
 
@@ -29,8 +34,17 @@ Bind(s, tr) ==
 
 TraceQT == ApplyQT /\ Bind(Head(insts).s, "QUANTIZE_TENSOR")
 TraceInsert == ApplyInsert /\ Bind(Head(insts).s, IF Head(insts).tr = "AQ" THEN "ADD_QUANTIZE" ELSE "ADD_DEQUANTIZE")
-Silent == (Materialize \/ BufCheck \/ Gen \/ NextTensor \/ ApplySkip) /\ UNCHANGED <<ti, l>>
-TraceNext == TraceQT \/ TraceInsert \/ Silent
+TrName(tr) == CASE tr = "NQ" -> "NO_QUANTIZE" [] tr = "QT" -> "QUANTIZE_TENSOR" [] tr = "AQ" -> "ADD_QUANTIZE" [] OTHER -> "ADD_DEQUANTIZE"
+\* the instructions generated for the tensor at position k of the first-mention order are entry k of the logged plan
+\* (no plan is logged when the generator itself raised: then nothing is bound)
+PlanMatches(k, I) ==
+  LET P == Plans[ti] IN
+  P = <<>> \/ ( /\ k <= Len(P) /\ I # <<>> /\ P[k].sub = I[1].s - 1 /\ Len(P[k].insts) = Len(I)
+                /\ \A j \in 1..Len(I) : /\ P[k].insts[j][1] = TrName(I[j].tr) /\ P[k].insts[j][2] = I[j].t
+                                          /\ P[k].insts[j][3] = I[j].p /\ P[k].insts[j][4] = I[j].c )
+TraceGen == Gen /\ UNCHANGED <<ti, l>> /\ (pc' = "apply" => PlanMatches(qi + 1, insts'))
+Silent == (Materialize \/ BufCheck \/ NextTensor \/ ApplySkip) /\ UNCHANGED <<ti, l>>
+TraceNext == TraceQT \/ TraceInsert \/ TraceGen \/ Silent
 TraceInit == \E i \in 1..Len(Scns) : InitFromIdx(i) /\ ti = i /\ l = 1
 TraceSpec == TraceInit /\ [][TraceNext]_tvars
 
